@@ -11,6 +11,9 @@ use bevy_replicon::client::server_mutate_ticks::ServerMutateTicks;
 use bevy_replicon::prelude::RepliconTick;
 use rv_harness::*;
 
+#[path = "../scene_kernel.rs"]
+mod scene_kernel;
+
 fn guard<T>(f: impl FnOnce() -> T) -> Option<T> {
     catch_unwind(AssertUnwindSafe(f)).ok()
 }
@@ -315,6 +318,7 @@ fn handle(cmd: &str, args: &[&str]) -> String {
         "ent_dec" => ent_dec(args),
         "ent_enc" => ent_enc(args),
         "tcmp" => tcmp(args),
+        "scene" => scene_kernel::scene_cmd(args),
         "vis" => vis(args),
         "cond" => cond(args),
         "tcp" => tcp(args),
